@@ -61,6 +61,7 @@ static struct snode *sn(struct cds_lfht_node *n, const char *where)
 	struct snode *s;
 	if (!n)
 		return NULL;
+	usim_node_check(n, sizeof(*n), where);
 	s = caa_container_of(n, struct snode, n);
 	if (s->magic != SMAGIC || s->id < 0 || s->id >= SMAXN || nodes[s->id] != s)
 		usim_fail("lfht-seq-mismatch", "%s returned a pointer that is not a stored user node", where);
@@ -358,7 +359,7 @@ void scen_lfht_seq(void)
 	flags = (int) usim_param("ht.flags", rnd(4));
 	custom = 0;
 	mm = mmsel == 0 ? &cds_lfht_mm_order : mmsel == 1 ? &cds_lfht_mm_chunk : mmsel == 2 ? &cds_lfht_mm_mmap : NULL;
-	usim_set_ncpus((int) usim_param("ncpus", 1 << rnd(3)));
+	usim_set_ncpus((int) usim_param("ncpus", pick(ncpu_choices, 8)));
 	usim_set_knob(URCU_VERIF_KNOB_MIN_PARTITION_ORDER, (unsigned long) usim_param("knob.min_partition_order", rnd(3) == 0 ? 12 : rnd(2)));
 	usim_set_knob(URCU_VERIF_KNOB_COUNT_COMMIT_ORDER, (unsigned long) usim_param("knob.count_commit_order", 1 + rnd(2)));
 	nturn_threads = (int) usim_param("app_threads", 1 + rnd(2));
